@@ -38,6 +38,8 @@ def exec_SC(t):
                 dt = np.uint64 if int(vs[0]) % 2 else np.uint32        # the wide unsigned types: v - bias must not wrap at zero either
             v_in = dt(vals[0]) if len(vals) == 1 else np.array(vals, dtype=dt)
         kw = dict(rounding=r, overflow=o, scale=num(sc, 'int' if sp == 'npint' else sp), bias=num(bi, 'int' if sp == 'npint' else sp))
+        if sp == 'npint' and isinstance(kw['bias'], float) and float(np.float32(kw['bias'])) == kw['bias'] and (n + f) % 2:
+            kw['bias'] = np.float32(kw['bias'])       # the same bias as a NumPy float (it is a float all the same)
         lo, hi = lims(s, n)
         safe = all(lo + 1 <= (v - bi) / sc * 2 ** f <= hi - 1 for v in vs)     # no overflow whatever the rounding
         h = hist_of(n, f, len(vs), *[int(v * 8) % 1009 for v in vs]) % 7
@@ -70,6 +72,11 @@ def exec_SC(t):
                 cs = codes_of(x)
                 x.set_val(cs[0] if len(cs) == 1 else np.array(cs, dtype=np.int64), raw=True)
         st = x.status
+        if len(vs) > 1 and not (st['overflow'] or st['underflow'] or st['inaccuracy']):
+            # an element (a slice) taken from an array object nothing was flagged on: no write happened to it, it has no flag either
+            for e in (x[0], x[0:1]):
+                if e.status['overflow'] or e.status['underflow'] or e.status['inaccuracy']:
+                    return ['ELEMENT_FLAGS:%d%d%d' % (e.status['overflow'], e.status['underflow'], e.status['inaccuracy'])]
         gv = [tok_exact(v) for v in flat(x.get_val())]
         return [tok_list([str(c) for c in codes_of(x)]), tok_list(gv), tok_exact(x.upper), tok_exact(x.lower), tok_exact(x.precision),
                 tok_bool(st['overflow']), tok_bool(st['underflow']), tok_bool(st['inaccuracy'])]
